@@ -24,5 +24,5 @@ for patch in selftest/mutants/*${pat}*.patch; do
   find replays -name "$prop-*" -newer $res -delete 2>/dev/null
 done
 git -C /repo worktree prune
-mv $res selftest/mutants.results
+if [ -z "$pat" ]; then mv $res selftest/mutants.results; else grep -v -F -f /dev/null selftest/mutants.results 2>/dev/null | grep -v "$pat" > $res.keep; cat $res.keep $res | sort > selftest/mutants.results; rm -f $res $res.keep; fi
 cat selftest/mutants.results
